@@ -494,6 +494,22 @@ impl Eraser {
                         if let Some(r) = self.try_fold_call(v)? {
                             return Ok(r);
                         }
+                        // `(a?.m(x).p)(..)`: the callee was a (parenthesised) member reference; once its chain is unfolded into
+                        // `(t = a, t == null ? undefined : ...p)` or `(t == null ? undefined : ...p)` the call gets a value, not a reference
+                        let mut callee = &v["callee"];
+                        if ty(callee) == "SequenceExpression" {
+                            if let Some(last) = callee["expressions"].as_array().and_then(|a| a.last()) {
+                                callee = last;
+                            }
+                        }
+                        if ty(callee) == "ConditionalExpression"
+                            && ty(&callee["test"]) == "BinaryExpression"
+                            && self.temp_name(&callee["test"]["left"]).is_some()
+                            && ty(&callee["test"]["right"]) == "NullLiteral"
+                            && matches!(ty(&callee["alternate"]), "MemberExpression" | "SuperPropExpression")
+                        {
+                            return err("this-lost", format!("the callee of a call is an unfolded optional chain ending in a member ({}): the call has no receiver any more", brief(&callee["alternate"])));
+                        }
                     }
                     "ConditionalExpression" => {
                         if let Some(r) = self.try_guard(v)? {
